@@ -13,8 +13,8 @@ func ruleSyncGuards(c *Ctx) {
 	fnAB := [3]string{ssPkg, "Module", "AddBlock"}
 	runGates(c, []GateSpec{
 		{ID: "Billet.putIntoHash.store", Fn: [3]string{"pkg/core/mpt", "Billet", "putIntoHash"}, Target: "call:pkg/core/mpt.(*Billet).incrementRefAndStore",
-			Guards: []Guard{{ID: "hash-match", Doc: "a restored node is stored only if its hash equals the hash node it replaces", Alts: [][]string{{"pkg/core/mpt.(BaseNodeIface).Hash", "pkg/core/mpt.(*HashNode).Hash", "param:val", "param:curr"}}},
-				{ID: "not-collapsed-path", Doc: "a non-empty remaining path means the subtree is already restored: rejected", Alts: [][]string{{"builtin.len", "param:path"}}}}},
+			Guards: []Guard{{ID: "hash-match", Doc: "a restored node is stored only if its hash equals the hash node it replaces", Alts: [][]string{{"pkg/core/mpt.(BaseNodeIface).Hash", "pkg/core/mpt.(*HashNode).Hash", "param#2", "param#0"}}},
+				{ID: "not-collapsed-path", Doc: "a non-empty remaining path means the subtree is already restored: rejected", Alts: [][]string{{"builtin.len", "param#1"}}}}},
 		{ID: "Billet.RestoreHashNode.put", Fn: [3]string{"pkg/core/mpt", "Billet", "RestoreHashNode"}, Target: "call:pkg/core/mpt.(*Billet).putIntoNode",
 			Guards: []Guard{{ID: "not-hash-node", Doc: "a hash node cannot be restored into a hash node", Alts: [][]string{{"type:pkg/core/mpt.HashNode"}}},
 				{ID: "not-empty-node", Doc: "an empty node cannot be restored", Alts: [][]string{{"type:pkg/core/mpt.EmptyNode"}}}}},
